@@ -17,6 +17,8 @@ package c10
 
 import (
 	"bytes"
+	"crypto/md5"
+	"path/filepath"
 	"encoding/base64"
 	"fmt"
 	"io"
@@ -619,6 +621,40 @@ func (s spec) checkRerender(r *hx.Run, id string, r2 []byte) {
 	chk("embed", s.embs, embs)
 }
 
+// boundariesOf: the boundaries a rendering announces, in order of appearance (outermost first)
+func boundariesOf(raw []byte) string {
+	var out []string
+	for _, l := range strings.Split(string(raw), "\r\n") {
+		if strings.HasPrefix(l, " boundary=") {
+			out = append(out, hx.Hex([]byte(strings.TrimPrefix(l, " boundary="))))
+		}
+	}
+	if len(out) == 0 {
+		return "-"
+	}
+	return strings.Join(out, ",")
+}
+
+// mimeTable: what addFiles derives from the file names of the parsed Msg (mime.TypeByExtension)
+func mimeTable(m *mail.Msg) string {
+	var out []string
+	add := func(fs []*mail.File) {
+		for _, f := range fs {
+			t := mime.TypeByExtension(filepath.Ext(f.Name))
+			if t == "" {
+				t = "application/octet-stream"
+			}
+			out = append(out, hx.Hex([]byte(f.Name))+"="+hx.Hex([]byte(t)))
+		}
+	}
+	add(m.GetEmbeds())
+	add(m.GetAttachments())
+	if len(out) == 0 {
+		return "-"
+	}
+	return strings.Join(out, ",")
+}
+
 // ---------- one case ----------
 
 func runRT(r *hx.Run, id string, s spec) {
@@ -663,6 +699,10 @@ func runRT(r *hx.Run, id string, s spec) {
 	}
 	names, _ := fields(headerBlock(r2))
 	r.Add(mc, res.Obs+" "+emlx.GenValues(m2)+" | "+strings.Join(names, ","), true)
+	// kind rr: the writer model applied to EmlRerender.msg_of_parsed (the Writer.msg the parsed Msg denotes), with
+	// the boundaries of the real re-render, must produce the bytes of the real re-render
+	r.Add(hx.Case{ID: id + "r", Kind: "rr", Args: append([]string{boundariesOf(r2), mimeTable(m2)}, strings.Split(tree, " ")...)},
+		fmt.Sprintf("%d %x", len(r2), md5.Sum(r2)), true)
 	// kind front: the whole parse in Gallina from the rendered bytes (MimeRead.read_tree + EmlFront + Eml)
 	r.Add(hx.Case{ID: id + "f", Kind: "front", Args: append([]string{hx.Hex(r1)}, emlx.FrontArgs(r1)...)}, res.Obs+" "+emlx.GenValues(m2), true)
 	s.checkRerender(r, id, r2)
@@ -865,7 +905,7 @@ func Run(r *hx.Run, replay []hx.Case) {
 				runFname(r, c.ID, string(hx.UnHex(c.Args[0])))
 			case "dec2047":
 				runDec(r, c.ID, string(hx.UnHex(c.Args[0])))
-			case "front": // replayed through its rt case
+			case "front", "rr": // replayed through its rt case
 			}
 		}
 		return
